@@ -8,6 +8,10 @@ import io
 import keyword
 import os
 import tokenize
+import warnings
+
+warnings.filterwarnings("ignore", category=SyntaxWarning)
+warnings.filterwarnings("ignore", category=DeprecationWarning)
 
 STDLIB = "/root/.pyenv/versions/3.12.1/lib/python3.12"
 
